@@ -7,21 +7,30 @@ import StraxModel.Lemmas.FSStep
   Invariant and its preservation by every step: `Lemmas/FS*.lean`.
 
   `Reach cs fs`: `fs` is reachable from the empty file system by ANY number of `make` attempts for the chunk list
-  `cs`, each under any variant, any handler behaviour (extra chunks flushed by the single-thread processor's
-  SaverSpy, abandoned savers), any schedule of saver thread / chunk writers / rmtree order, any faults (any
-  operation raising, exceptions thrown in from elsewhere) and stopped at ANY point (process death).
+  `cs`, each under the serial or the executor variant (NOT the forked one, see below), any handler behaviour (extra
+  chunks flushed by the single-thread processor's SaverSpy, abandoned savers), any schedule of saver thread / chunk
+  writers / writes the handler does not wait for / rmtree order, any faults (any operation raising, exceptions thrown
+  in from elsewhere) and stopped at ANY point (process death).
   All statements are for the protocol as it is in /repo now (D3, D12, D26 fixed); the three old behaviours are
   kept as switches of the model and refuted by `decide` on concrete witnesses (`…_old_counterexample`).
+
+  PARTIAL.  The forked variant (savers inlined into a ParallelSourcePlugin, chunk + per-chunk metadata written inside
+  `do_compute` in a pool worker) is modelled as the code is: nobody on the saver's side looks at the result of a
+  worker (`cleanup` → `Saver.close(wait_for)` only waits), the caller learns about a failure from the mailbox readers.
+  For it C04 is FALSE in /repo (defect D35): `crash_safe_forked_counterexample`,
+  `failure_unrecorded_forked_counterexample`, `retry_refused_forked_counterexample`.  Hence every theorem below
+  carries `v ≠ .forked` (inside `Reach` and explicitly) and has the suffix `_partial`.
 -/
 namespace Strax.C04
 open Strax Strax.FS
 
 /-! ## the central invariant -/
 
-/-- The final directory name appears only through the last rename, after a metadata flush: whenever it exists
-its metadata file exists and parses, and if that metadata says "writing ended, no exception" then it lists
-exactly the chunks `cs` and every chunk file it names is in place with the right rows. -/
-theorem final_only_by_rename {cs : List Chunk} (hcs : cs ≠ []) {fs : FS} (h : Reach cs fs) :
+/-- Whenever the final directory exists its metadata file exists and parses, and if that metadata says "writing
+ended, no exception" then it lists exactly the chunks `cs` and every chunk file it names is in place with the right
+rows.  (In the machine the final name appears only through `renameDir temp final` after a metadata flush; this is
+what that buys.) -/
+theorem final_dir_consistent {cs : List Chunk} (hcs : cs ≠ []) {fs : FS} (h : Reach cs fs) :
     ∀ d, fs.final = some d → ∃ m, d.get .md = some (.json m) ∧
       (m.good = true → m.chunks.isEmpty = false ∧ loadChunks d m.chunks = .ok cs) := by
   intro d hd
@@ -31,12 +40,12 @@ theorem final_only_by_rename {cs : List Chunk} (hcs : cs ≠ []) {fs : FS} (h : 
   · rename_i m hm; exact ⟨m, hm, hs⟩
   · exact absurd hs id
 
-/-! ## crash safety (full strength) -/
+/-! ## crash safety (serial and executor variants; forked: counterexample below) -/
 
 /-- After any fault sequence, at any point of death: what `find` (hence `is_stored`) reports available loads
 completely and equals the correct chunks; everything else is reported unavailable by `DataNotAvailable` — never by
 another exception. -/
-theorem crash_safe {cs : List Chunk} (hcs : cs ≠ []) {fs : FS} (h : Reach cs fs) :
+theorem crash_safe_partial {cs : List Chunk} (hcs : cs ≠ []) {fs : FS} (h : Reach cs fs) :
     (visible fs = true → loads fs = .ok cs) ∧ (visible fs = false → find fs = .error .dataNotAvailable) := by
   rcases safe_visible (reach_safe hcs h) with ⟨hf, hl⟩ | hf
   · exact ⟨fun _ => hl, fun hv => by simp [visible, hf, Except.toBool] at hv⟩
@@ -44,9 +53,10 @@ theorem crash_safe {cs : List Chunk} (hcs : cs ≠ []) {fs : FS} (h : Reach cs f
 
 /-- The same for a configuration in the middle of an attempt (the process may die right there). -/
 theorem crash_safe_midway {cs : List Chunk} (hcs : cs ≠ []) {fs : FS} (h : Reach cs fs) (hst : start fs = .save)
-    (v : Variant) (hs : HandlerSpec) (acts : List Act) {c : Cfg} (hrun : run (initCfg fs v {} cs hs) acts = some c) :
+    (v : Variant) (hs : HandlerSpec) (hv : v ≠ .forked) (hsv : hs.variant ≠ .forked) (acts : List Act) {c : Cfg}
+    (hrun : run (initCfg fs v {} cs hs) acts = some c) :
     (visible c.fs = true → loads c.fs = .ok cs) ∧ (visible c.fs = false → find c.fs = .error .dataNotAvailable) :=
-  crash_safe hcs (Reach.attempt h hst hrun)
+  crash_safe_partial hcs (Reach.attempt h hv hsv hst hrun)
 
 /-- No reachable state makes a later request fail up front: the state "final directory without metadata"
 (D12) is unreachable, `find` never raises `DataCorrupted`, so an identical request either finds the data or
@@ -58,20 +68,23 @@ theorem retry_never_refused {cs : List Chunk} (hcs : cs ≠ []) {fs : FS} (h : R
     cases hf : fs.final with
     | none => rfl
     | some d =>
-      obtain ⟨m, hm, _⟩ := final_only_by_rename hcs h d hf
+      obtain ⟨m, hm, _⟩ := final_dir_consistent hcs h d hf
       simp [hm]
   · rcases safe_visible (reach_safe hcs h) with ⟨hf, _⟩ | hf <;> simp [start, hf]
 
-/-! ## failures are reported (full strength, all variants) -/
+/-! ## failures are reported (serial and executor variants) -/
 
-/-- If any FS operation of the protocol raised — on the saver thread or in a chunk write on the executor / in a
-forked copy — the attempt never ends in "success".  (Includes the D3 statement: a failed executor write is never
-swallowed.)  `lostClose = false` says that the processor looks at an exception of the final `close`, which is the
-behaviour of both processors since the D26 fix. -/
-theorem failure_reported {cs : List Chunk} (hcs : cs ≠ []) {fs : FS} (h : Reach cs fs) (v : Variant) (hs : HandlerSpec)
+/-- If any FS operation of the protocol raised — on the saver thread or in a chunk write on the executor, waited for
+or not — the saver's part of the attempt (`save_from` + `close`, `Cfg.out`) never ends in "success": the exception
+leaves `save_from` / `close`.  (Includes the D3 statement: a failed executor write is never swallowed.)  That the
+processor hands that exception to the caller of `make` is the one boolean `lostClose = false`: both processors look
+at an exception of the final `close` since the D26 fix; tied by the check's oracle, not proved about the processors.
+For inlined (forked) savers nothing of the kind holds, see `failure_unrecorded_forked_counterexample`. -/
+theorem failure_reported_partial {cs : List Chunk} (hcs : cs ≠ []) {fs : FS} (h : Reach cs fs) (v : Variant)
+    (hs : HandlerSpec) (hv : v ≠ .forked) (hsv : hs.variant ≠ .forked)
     (hl : hs.lostClose = false) (acts : List Act) {c : Cfg} (hrun : run (initCfg fs v {} cs hs) acts = some c)
     (hf : c.failed = true) : c.out ≠ .success := by
-  have hI := inv_init (reach_safe hcs h) v hs
+  have hI := inv_init (reach_safe hcs h) v hs hv hsv
   have hR := rep_run hcs acts hI hl (rep_init fs v cs hs) hrun
   intro hsu
   obtain ⟨hh, _, hok⟩ := hR.f2 hsu
@@ -85,17 +98,18 @@ theorem failure_reported {cs : List Chunk} (hcs : cs ≠ []) {fs : FS} (h : Reac
 /- Full statement: from any state reachable by any fault sequence, a full fault-free run of the protocol (any
    schedule) terminates in "success" with the data stored completely and correctly.
    Proved: (1) `retry_never_refused` — the retry is never refused and starts (or finds the data already stored and
-   correct, `crash_safe`); (2) `retry_heals_partial` — whenever the retry ends in "success" (any schedule, any
-   variant) the data is visible, loads completely and equals the correct chunks; (3) `failure_reported` — it can
+   correct, `crash_safe_partial`); (2) `retry_heals_partial` — whenever the retry ends in "success" (any schedule, any
+   variant but the forked one) the data is visible, loads completely and equals the correct chunks; (3)
+   `failure_reported_partial` — it can
    only end otherwise if an operation raised or an exception was thrown in.
    Missing: that a fault-free run cannot hit an operation that fails for a reason of the file-system state
    (e.g. `mkdir` of an existing directory) and that every schedule terminates.  Both are exercised by the check
    (every fault run is followed by a clean retry on the real code and in the model) and witnessed below by `decide`
    for the three variants from the empty directory, a stale temp directory and broken final data. -/
 theorem retry_heals_partial {cs : List Chunk} (hcs : cs ≠ []) {fs : FS} (h : Reach cs fs) (v : Variant) (hs : HandlerSpec)
-    (hl : hs.lostClose = false) (acts : List Act) {c : Cfg} (hrun : run (initCfg fs v {} cs hs) acts = some c)
+    (hv : v ≠ .forked) (hsv : hs.variant ≠ .forked) (hl : hs.lostClose = false) (acts : List Act) {c : Cfg} (hrun : run (initCfg fs v {} cs hs) acts = some c)
     (hsu : c.out = .success) : visible c.fs = true ∧ loads c.fs = .ok cs := by
-  have hI := inv_init (reach_safe hcs h) v hs
+  have hI := inv_init (reach_safe hcs h) v hs hv hsv
   have hR := rep_run hcs acts hI hl (rep_init fs v cs hs) hrun
   obtain ⟨d, m, hd, hm, hg⟩ := hR.succ hsu
   have hsafe := (inv_run hcs acts hI hrun).safe
@@ -131,58 +145,83 @@ def loadErr (fs : FS) : Option Err :=
   | .error e => some e
 
 /-- the outcome of two attempts in a row under the eager scheduler -/
-def twoAttempts (v : Variant) (pr : Proto) (hs : HandlerSpec) (o : RmOrder) (f1 f2 : Option Fault) : Cfg × Result :=
+def twoAttempts (v : Variant) (pr : Proto) (hs : HandlerSpec) (o : RmOrder) (f1 f2 : List Fault) : Cfg × Result :=
   let r1 := (attempt FS.empty v pr [c1, c2] hs o f1).1
   let r2 := attempt r1.cfg.fs v pr [c1, c2] hs o f2
   (r2.1.cfg, r2.2)
 
 /-- `Reach` is inhabited beyond the empty file system: everything the driver's scheduler produces is reachable, e.g.
 broken data left behind by an I/O error followed by a death in the middle of its removal -/
-example : Reach [c1, c2] (twoAttempts .serial {} (specOf .serial) .metaFirst (some ⟨9, .exc⟩) (some ⟨4, .dieAfter⟩)).1.fs :=
-  attempt_reach (attempt_reach Reach.empty _ _ _ _) _ _ _ _
+example : Reach [c1, c2] (twoAttempts .serial {} (specOf .serial) .metaFirst [⟨9, .exc⟩] [⟨4, .dieAfter⟩]).1.fs :=
+  attempt_reach (attempt_reach Reach.empty _ _ _ _ (by decide) (by decide)) _ _ _ _ (by decide) (by decide)
 
 /-- a retry heals: serial variant, after an exception that left broken data (final directory with "exception") -/
 theorem retry_heals_serial_example :
-    let r := twoAttempts .serial {} (specOf .serial) .metaFirst (some ⟨9, .exc⟩) none
+    let r := twoAttempts .serial {} (specOf .serial) .metaFirst [⟨9, .exc⟩] []
     r.2 = .success ∧ visible r.1.fs = true ∧ (loads r.1.fs).toBool = true := by decide
 
 /-- … executor variant, after the process died in the middle of a chunk write (stale temp directory) -/
 theorem retry_heals_executor_example :
-    let r := twoAttempts .executor {} (specOf .executor) .sorted (some ⟨7, .dieAfter⟩) none
+    let r := twoAttempts .executor {} (specOf .executor) .sorted [⟨7, .dieAfter⟩] []
     r.2 = .success ∧ visible r.1.fs = true ∧ (loads r.1.fs).toBool = true := by decide
 
-/-- … forked variant, after an I/O error on a per-chunk metadata file -/
+/-- … forked variant, after an I/O error while a per-chunk metadata file was being written (the truncated file makes
+`_close` fail, the temp directory stays) -/
 theorem retry_heals_forked_example :
-    let r := twoAttempts .forked {} (specOf .forked) .metaLast (some ⟨11, .exc⟩) none
-    r.2 = .success ∧ visible r.1.fs = true ∧ (loads r.1.fs).toBool = true := by decide
+    let r := twoAttempts .forked {} (specOf .forked) .metaLast [⟨11, .exc⟩] []
+    r.2 = .success ∧ visible r.1.fs = true ∧ (loads r.1.fs).toOption = some [c1, c2] := by decide
+
+/-! ## the forked variant as coded violates C04 (D35) -/
+
+def c3 : Chunk := { c1 with start := 20, stop := 30, rows := [⟨21, 22, 5⟩] }
+
+/-- D35, last chunk: the rename of the last chunk file fails inside the pool worker.  The caller gets the exception
+(through the mailbox reader), but the saver — closed by `cleanup`, which only waits — records nothing: the data is
+visible as valid with the last chunk silently missing. -/
+theorem crash_safe_forked_counterexample :
+    let r := attempt FS.empty .forked {} [c1, c2, c3] (specOf .forked) .sorted [⟨22, .exc⟩]
+    r.2 = .raised ∧ visible r.1.cfg.fs = true ∧ (loads r.1.cfg.fs).toOption = some [c1, c2] := by decide
+
+/-- D35, any chunk: an operation of the protocol raised and the caller saw it, yet the metadata stored says
+"writing ended, no exception" (here the per-chunk metadata of the middle chunk could not be created: the visible
+data has a hole) -/
+theorem failure_unrecorded_forked_counterexample :
+    let r := (attempt FS.empty .forked {} [c1, c2, c3] (specOf .forked) .sorted [⟨16, .exc⟩]).1
+    r.cfg.failed = true ∧ r.cfg.out = .raised ∧ (getMetadata r.cfg.fs).toOption.map Meta.good = some true ∧
+      (loads r.cfg.fs).toOption = some [c1, c3] := by decide
+
+/-- D35: a retry does not heal — the broken data counts as stored, the identical request does nothing -/
+theorem retry_refused_forked_counterexample :
+    let r := twoAttempts .forked {} (specOf .forked) .sorted [⟨9, .exc⟩] []
+    r.2 = .stored ∧ (loads r.1.fs).toOption = some [c2] := by decide
 
 /-- D12 is gone: death inside the removal of broken data (after its metadata file was unlinked) now leaves a temp
 directory; the data is reported unavailable … -/
 theorem rmtree_death_fixed_example :
-    let r := twoAttempts .serial {} (specOf .serial) .metaFirst (some ⟨9, .exc⟩) (some ⟨4, .dieAfter⟩)
+    let r := twoAttempts .serial {} (specOf .serial) .metaFirst [⟨9, .exc⟩] [⟨4, .dieAfter⟩]
     r.2 = .died ∧ findErr r.1.fs = some .dataNotAvailable ∧ D12 r.1.fs = false := by decide
 
 /-- … whereas the OLD protocol (broken data deleted in place) reaches the state "final directory without
 metadata", in which `find` / `is_stored` raise `DataCorrupted` and every later request is refused -/
 theorem rmtree_death_old_counterexample :
-    let r := twoAttempts .serial { atomicRemove := false } (specOf .serial) .metaFirst (some ⟨9, .exc⟩) (some ⟨2, .dieAfter⟩)
+    let r := twoAttempts .serial { atomicRemove := false } (specOf .serial) .metaFirst [⟨9, .exc⟩] [⟨2, .dieAfter⟩]
     r.2 = .died ∧ findErr r.1.fs = some .dataCorrupted ∧ D12 r.1.fs = true ∧ start r.1.fs = .corrupted := by decide
 
 /-- D3: the OLD protocol (done futures dropped unchecked, `close` only waits) admits a run that ends in "success"
 although a chunk write on the executor failed: the data is visible, the chunk file is missing, loading fails -/
 theorem executor_failure_swallowed_old_counterexample :
-    let r := (attempt FS.empty .executor { recheck := false } [c1, c2] (specOf .executor) .sorted (some ⟨7, .exc⟩)).1
+    let r := (attempt FS.empty .executor { recheck := false } [c1, c2] (specOf .executor) .sorted [⟨7, .exc⟩]).1
     r.cfg.out = .success ∧ r.cfg.failed = true ∧ visible r.cfg.fs = true ∧ loadErr r.cfg.fs = some .osError := by decide
 
 /-- D26: a processor that does not look at an exception of the final `close` (threaded processor before the fix)
 reports success although the last metadata flush failed and nothing was stored -/
 theorem close_failure_lost_old_counterexample :
-    let r := (attempt FS.empty .serial {} [c1, c2] ⟨.serial, [], 0, false, true⟩ .sorted (some ⟨19, .exc⟩)).1
+    let r := (attempt FS.empty .serial {} [c1, c2] ⟨.serial, [], 0, false, true⟩ .sorted [⟨19, .exc⟩]).1
     r.cfg.out = .success ∧ r.cfg.failed = true ∧ r.cfg.lost = true ∧ visible r.cfg.fs = false := by decide
 
 /-- the same fault under the current behaviour is reported -/
 example :
-    let r := (attempt FS.empty .serial {} [c1, c2] (specOf .serial) .sorted (some ⟨19, .exc⟩)).1
+    let r := (attempt FS.empty .serial {} [c1, c2] (specOf .serial) .sorted [⟨19, .exc⟩]).1
     r.cfg.out = .raised ∧ r.cfg.failed = true ∧ visible r.cfg.fs = false := by decide
 
 end Strax.C04
